@@ -269,7 +269,7 @@ pub const SIZES_QUICK: [usize; 11] = [1, 2, 3, 4, 5, 8, 13, 27, 50, 100, 200];
 pub const CONDITIONED: [&str; 11] =
     ["uniform", "uniform", "lattice", "blattice", "coplanar", "mildcluster", "tiny", "clattice", "star", "rows", "gradient"];
 
-pub const ALL_FAMILIES: [&str; 16] = ["star", "rows", "gradient", "uniform", "lattice", "clattice", "blattice", "coplanar", "mildcluster", "tiny", "nearlattice", "walls", "cluster", "cosphere", "slabwalls", "nearpairs"];
+pub const ALL_FAMILIES: [&str; 17] = ["closepairs", "star", "rows", "gradient", "uniform", "lattice", "clattice", "blattice", "coplanar", "mildcluster", "tiny", "nearlattice", "walls", "cluster", "cosphere", "slabwalls", "nearpairs"];
 
 fn unit_points(family: &str, n: usize, dim: usize, r: &mut Rng) -> Vec<DVec3> {
     let mut u = vec![];
@@ -439,6 +439,24 @@ fn unit_points(family: &str, n: usize, dim: usize, r: &mut Rng) -> Vec<DVec3> {
                 u.push(p);
             }
         }
+        // pairs of generators 1e-4 .. 1e-6 box widths apart among ordinary ones: two nearly parallel faces on every
+        // common neighbour (thin wedges between them)
+        "closepairs" => {
+            let d = *r.pick(&[1e-4, 1e-5, 1e-6]);
+            let mut k = 0;
+            while u.len() < n.max(2) {
+                let p = rnd(r) * 0.9 + 0.05;
+                u.push(p);
+                if k % 3 == 0 {
+                    let mut dir = DVec3::new(r.gauss(), r.gauss(), r.gauss());
+                    if dir.length() < 1e-3 {
+                        dir = DVec3::ONE;
+                    }
+                    u.push(p + d * dir / dir.length());
+                }
+                k += 1;
+            }
+        }
         // ---- hostile families (used through the fixed corpus / class-level known findings) ----
         "nearlattice" => {
             let k = 2 + r.below(4);
@@ -604,6 +622,46 @@ pub fn gen_case(label: &str, tier: &str, seed: u64, k: u64, o: &GenOpts) -> Case
     let n = *r.pick(o.sizes);
     let unit = unit_points(family, n, dim, &mut r);
     finish(family, unit, b, dim, periodic, format!("{label}/{tier}/seed{seed}/case{k}"))
+}
+
+
+/// Giant cell: one central generator inside a nearly spherical shell (radial noise 1e-4) of n - 1 others in a cubic box;
+/// only the centre and two shell cells are selected by the mask. The central cell has about n faces, 2n vertices and
+/// 6n face-vertex connections.
+pub fn shell_case(label: &str, tier: &str, seed: u64, k: u64, n: usize) -> Case {
+    let mut g = Rng::stream(&format!("{label}giant"), &[seed, k, n as u64]);
+    let l = *g.pick(&[1., 1e-3, 1e3]);
+    let width = DVec3::splat(l);
+    let anchor = DVec3::from_array(*g.pick(&[[0., 0., 0.], [-0.5, -0.5, -0.5], [3.3, -7.1, 11.9]])) * l;
+    let c0 = anchor + width * (DVec3::splat(0.5) + 0.02 * DVec3::new(g.f() - 0.5, g.f() - 0.5, g.f() - 0.5));
+    let rad = l * (0.25 + 0.15 * g.f());
+    let mut pts = vec![c0];
+    while pts.len() < n {
+        let d = DVec3::new(g.gauss(), g.gauss(), g.gauss());
+        if d.length() < 1e-3 {
+            continue;
+        }
+        pts.push(c0 + d / d.length() * rad * (1. + 1e-4 * (g.f() - 0.5)));
+    }
+    let mut c = Case {
+        family: "shell".into(),
+        dim: 3,
+        periodic: k % 2 == 1,
+        anchor,
+        width,
+        pts,
+        mask: None,
+        origin: format!("{label}giant/{tier}/seed{seed}/case{k}/n{n}"),
+    };
+    c.dedup();
+    let mut m = vec![false; c.n()];
+    m[0] = true;
+    for _ in 0..2 {
+        let j = g.below(c.n());
+        m[j] = true;
+    }
+    c.mask = Some(m);
+    c
 }
 
 /// Generate one case of an explicit family (used for the corpus and the hostile exploration).
